@@ -163,7 +163,7 @@ def run(ck: Check):
                     continue
                 inst = by_t.get((w["id"], t["id"]), [])
                 cols = objective_cols(mset)
-                cands, cand_nodes = [], []
+                cands, cand_nodes, exact_fit = [], [], []
                 for c, v, k in inst:
                     if not v.get("wellformed") or not v["cap"]:
                         continue
@@ -172,6 +172,15 @@ def run(ck: Check):
                         vec.append(Fraction(*v["energy"]))
                     if "latency" in cols:
                         vec.append(Fraction(*v["latency"]))
+                    # an assignment that fills a memory exactly (footprint = size) and whose float32 usage formula
+                    # nevertheless comes out above 1 (size not a power of two: bits * float32(1/size) > 1) is judged
+                    # apart (known finding C08/exact-fit...): it is valid by execution and by evaluate_mapping
+                    fit = [m for m in v["footprint"] if w["size"].get(m) and v["footprint"][m] == w["size"][m]
+                           and not isinstance(t["formulas"].get("usage<SEP>memory<SEP>" + m, [None] * (k + 1))[k], (str, type(None)))
+                           and mc.fr(t["formulas"]["usage<SEP>memory<SEP>" + m][k]) > 1]
+                    if fit:
+                        exact_fit.append((vec, c["nodes"], fit[0]))
+                        continue
                     cands.append(vec)
                     cand_nodes.append(c["nodes"])
                 ret = []
@@ -186,6 +195,17 @@ def run(ck: Check):
                             vec.append(mc.fr(x))
                     if ok:
                         ret.append(vec)
+                for vec, nodes_, mem in exact_fit:
+                    if not any(all(r[i] <= vec[i] for i in range(len(vec))) for r in ret):
+                        ck.violation("C08/exact-fit-assignment-rejected-by-float32-usage-formula",
+                                     "world %d (memory %s of %s bits) template %s: assignment %s fills %s exactly (usage 1 by "
+                                     "execution and by evaluate_mapping) and has objectives %s, but its compiled usage formula "
+                                     "evaluates above 1 in float32, make_tile_shapes drops it and no returned row weakly "
+                                     "dominates it (returned %s)"
+                                     % (w["id"], mem, w["size"][mem], ln.short(t["nodes"]), ln.short(nodes_), mem,
+                                        [str(x) for x in vec], [[str(x) for x in r] for r in ret][:6]),
+                                     {"world": w, "metrics": mset, "template_nodes": t["nodes"], "nodes": nodes_, "kind": "exact-fit"})
+                        ck.extra["exact_fit_assignments_lost"] = ck.extra.get("exact_fit_assignments_lost", 0) + 1
                 cid = "%d/%s/%s" % (w["id"], "+".join(mset), t["id"])
                 rc, rr = mc.rank_columns(cands, ret)
                 cases.append({"id": cid, "kind": "front", "cands": rc, "ret": rr})
@@ -230,6 +250,16 @@ def replay(path):
     ck.work = os.path.join(os.path.dirname(os.path.abspath(path)), "_replay_tmp")
     os.makedirs(ck.work, exist_ok=True)
     w, mset = rec["world"], tuple(rec["metrics"])
+    if rec.get("kind") == "large":
+        # the large part is one fixed spec: run it again (minutes) and report what it finds
+        large_part(ck)
+        for sig, detail, _, n in ck.violations:
+            print(sig, detail[:600])
+        if ck.violations:
+            print("VIOLATION property=C08 replay=%s" % path)
+            return 1
+        print("no disagreement on this case")
+        return 0
     outs = tc.collect(ck, [w], mset, nproc=1)
     tcases, index, verdicts = tc.execute_all(ck, [w], outs, "replay")
     cols = objective_cols(mset)
